@@ -52,6 +52,13 @@ CHECKS = {
         "deterministic simulation: seeded delivery/pass schedules with fault injection at arbitrary heads and passes, pre-pass fingerprint restoration oracle + reference coordinator",
         "DESIGN.md §5 C09",
     ),
+    "C17": (
+        "fault_enumeration",
+        "Seeded interleavings of request/claim/settle/reconcile/observe ops (valid and invalid arguments) over 1-6 request ids on the real protocol functions, against a simulator-owned WalStorePort with a durable line (3/4 of runs) and the real FilesystemWalStore with crash images taken at I/O points (H5; 1/4 of runs). Faults: append error, flush error before/after durability (lost ack), process death at every frame/flush point and after any op with all/none/part of the un-flushed tail surviving, repeated crash-recover cycles, ops against a poisoned coordinator. Oracle: reference lifecycle per id advanced only by the harness's own durability model; at most one distinct grant; durable-before-grant; recovered index/root/outstanding grants equal a fault-free twin that executed exactly the durable ops; retries answered from retained results without growing the log; recovery idempotent. Fault kinds enumerated, positions sampled; evidence, not proof.",
+        "Trusts the harness's durable-line model and its independent log scan; v1 transactions have one frame, so 'frame k' is always frame 0; crashes while filesystem recovery rewrites the segment belong to C10.",
+        "deterministic simulation: seeded op interleavings with store fault and crash injection at every frame/flush point, refinement against a durable-prefix twin",
+        "DESIGN.md §5 C17",
+    ),
     "C14": (
         "exploration",
         "A generated honest tick plus one violator program (omits exactly one read/write access it performs, writes another instance, emits an instance op, optionally panics) placed at seeded canonical positions, work units and workers (claim tapes); the commit must unwind with the matching violation and leave the pre-state untouched; an unflagged omitted write is a violation exactly when the guarded location's observable content changed (attribution completeness). Seeded search; evidence, not proof.",
